@@ -245,6 +245,23 @@ template<class S> static S pick_pitch(vh::Rng & r, int mode)
   return inside_closed(v, PITCH_LIM_L);
 }
 
+// scale applied to a quaternion's coefficients: exactly unit, "almost unit" (1 + delta, |delta| log-uniform 1e-8..1e-2,
+// either sign: non-unit by a few ulps up to a percent, where a shortcut for "already normalised" input would sit), or
+// grossly non-unit (norm 1e-3..1e3).  `steep` raises the share of the almost-unit class (steep pitch is where a
+// missing normalisation is amplified by tan(pitch)).  Returns the class: 0 unit, 1 almost unit, 2 non-unit.
+template<class S> static int pick_quaternion_scale(vh::Rng & r, bool steep, S & scale)
+{
+  int k = (int)r.range(0, 99);
+  int p_almost = steep ? 55 : 30;
+  if (k < p_almost) {
+    scale = (S)(1.0 + r.sign() * r.logu(1e-8, 1e-2));
+    return scale == (S)1 ? 0 : 1;
+  }
+  if (k < p_almost + 20) {scale = (S)1; return 0;}
+  scale = (S)r.logu(1e-3, 1e3);
+  return 2;
+}
+
 struct CaseInfo
 {
   const char * cat = "";
@@ -352,7 +369,13 @@ template<class S> static void euler_case(vh::Ctx & c, vh::Rng & r)
 
   // ---- angles -> quaternion (scaled: unit or non-unit) -> angles
   {
-    S scale = r.coin(0.3) ? (S)1 : (S)r.logu(1e-3, 1e3);
+    S scale;
+    const bool steep = fabsl(lp) >= PITCH_LIM_L - 1e-2L;
+    const int sclass = pick_quaternion_scale<S>(r, steep, scale);
+    if (sclass == 1) {
+      c.cat(istr("quaternion_scale_almost_unit"));
+      if (steep) {c.cat(istr("quaternion_scale_almost_unit_steep_pitch"));}
+    }
     Eigen::Quaternion<S> qs(q.w() * scale, q.x() * scale, q.y() * scale, q.z() * scale);
     const V3 e = rc::quaternionToEulerAngles<S>(qs);
     bool fin = std::isfinite(e[0]) && std::isfinite(e[1]) && std::isfinite(e[2]);
@@ -385,6 +408,45 @@ template<class S> static void euler_case(vh::Ctx & c, vh::Rng & r)
       c.expect_le("build.smart_vs_zyx.d", frob(Rsl, Ro), K_BUILD * eps<double>(), "builders_disagree", params, w);
       c.expect_le("build.smart_vs_euler_matrix.d", frob(Rsl, Rl), (K_BUILD + K_BUILD_Q) * eps<double>(), "builders_disagree", params, w);
       check_proper3<double>(c, Rsl, "SmartRotation3D::R", params, wit);
+    }
+
+    // ---- consecutive near-duplicate inputs to the same (stateful) object: after the target angles the object is
+    // re-initialised 1..3 times with previous + delta, |delta| log-uniform in [1e-15, 1e-2] on one, two or all three
+    // components (or, now and then, with exactly the same angles); R() must follow every time.
+    if (r.coin(0.5)) {
+      c.cat(istr("smart_near_duplicate_reinit"));
+      rc::SmartRotation3D obj;
+      double t[3] = {(double)roll, (double)pitch, (double)yaw};
+      const int n = (int)r.range(1, 3);
+      for (int step = 0; step <= n; ++step) {
+        double d[3] = {0, 0, 0};
+        if (step > 0 && !r.coin(0.05)) {
+          int mask = (int)r.range(1, 7);
+          if (r.coin(0.4)) {mask = 7;}
+          for (int k = 0; k < 3; ++k) {if (mask & (1 << k)) {d[k] = r.sign() * r.logu(1e-15, 1e-2);}}
+        }
+        for (int k = 0; k < 3; ++k) {t[k] += d[k];}
+        if (r.coin()) {obj.init(t[0], t[1], t[2]);} else {obj.init(Eigen::Vector3d(t[0], t[1], t[2]));}
+        if (step == 0) {continue;}                       // the first initialisation is what the block above checks
+        const M3 Rn = toM3(obj.R());
+        const M3 Rno = oracle_R((LD)t[0], (LD)t[1], (LD)t[2]);
+        const double dmax = std::max(std::fabs(d[0]), std::max(std::fabs(d[1]), std::fabs(d[2])));
+        c.count(istr("smart_rotation_near_duplicate_reinits"));
+        if (dmax < 1e-5) {c.count(istr("smart_rotation_reinit_delta_below_1e-5"));}
+        const std::function<vh::Params()> pn = [&]() {
+            return vh::Params{{"scalar", 0.0}, {"roll", t[0]}, {"pitch", t[1]}, {"yaw", t[2]}, {"reinit_step", (double)step},
+              {"delta_max", dmax}};
+          };
+        const std::function<std::string()> wn = [&]() {
+            return vh::J().s("builder", "SmartRotation3D::R after init() with previous + delta").f("step", step)
+                   .f("roll", (LD)t[0]).f("pitch", (LD)t[1]).f("yaw", (LD)t[2]).f("d_roll", (LD)d[0]).f("d_pitch", (LD)d[1])
+                   .f("d_yaw", (LD)d[2]).raw("got", jm3(Rn)).raw("zyx", jm3(Rno)).raw("first_angles", wit()).str();
+          };
+        if (!c.expect("finite.d", finite3(Rn), "nonfinite", pn, wn)) {break;}
+        c.expect_le("build.smart_reinit_near_vs_zyx.d", frob(Rn, Rno), K_BUILD * eps<double>(), "builders_disagree_after_reinit",
+          pn, wn);
+        check_proper3<double>(c, Rn, "SmartRotation3D::R", pn, wn);
+      }
     }
   }
 }
@@ -435,7 +497,12 @@ template<class S> static void rotation_case(vh::Ctx & c, vh::Rng & r, bool as_qu
   Eigen::Quaternion<S> qs;      // quaternion input
   S scale = 1;
   if (as_quaternion) {
-    scale = r.coin(0.25) ? (S)1 : (S)r.logu(1e-3, 1e3);
+    const bool steep = sub >= 55 && sub < 90;              // the R(2,0)-limit band
+    const int sclass = pick_quaternion_scale<S>(r, steep, scale);
+    if (sclass == 1) {
+      c.cat(istr("quaternion_scale_almost_unit"));
+      if (steep) {c.cat(istr("quaternion_scale_almost_unit_steep_pitch"));}
+    }
     if (r.coin()) {scale = -scale;}                      // q and -q are the same rotation
     for (;;) {
       qs = Eigen::Quaternion<S>((S)(ql.w * scale), (S)(ql.x * scale), (S)(ql.y * scale), (S)(ql.z * scale));
